@@ -16,6 +16,10 @@ CHECKS["C09"] = ("FRAME", MC, "exhaustive enumeration of stream partitions again
    "Every stream made of 1..3 frames from a 12-frame alphabet (zero-length bodies, PUBLISH/Arc and non-PUBLISH/Vec paths, 1-, 2- (thorough: 3-) byte Remaining Length, non-minimal Remaining Length, 5-byte Remaining Length errors, reserved type nibbles) is fed to the real PacketBuilder and to a real connected v3.1.1 and v5.0 server under every composition of the stream (streams <= 13 bytes; thorough <= 17) or every subset of a boundary-centred cut set; the result sequence must equal the refcodec framing of the whole stream and the whole-frame-per-call feeding, the cursor must stop exactly at each frame end, and one recv call may deliver at most one packet.",
    "Bounded to 3 frames per stream and the stated cut sets for long streams; the builder has 3 control states and its transition relation is covered (state x input-byte class); trusts the refcodec framing function.",
    "DESIGN.md §3 C09")
+CHECKS["C06"] = ("EXPLORE", MC, "explicit-state BFS of the real connection object against a store / packet-id reference model",
+   "For client, server and any-role connections, v3.1.1 and v5.0, automatic and manual responses, offline publishing on and off (plus v5 alias / Maximum Packet Size configurations), all histories over publishes QoS 0/1/2 in every status, every PUBACK/PUBREC/PUBCOMP for ids 1..2 (thorough 1..3; matching, wrong kind, wrong id, duplicate, v5 error codes), deferred manual PUBREL, erase, a second CONNACK, close and reconnect (clean / persistent, session present or not) are explored breadth-first on the real object to closure (window 2, thorough 3); on every transition the store model is compared with get_stored_packets() decoded by the reference codec, unexpected acknowledgements must be refused without changing session state, and the retransmission list after CONNACK must equal the model list (order, ids, DUP, full topic, no alias, oversize dropped).",
+   "Bounded by the in-flight window and the alphabets listed in the evidence; two v5 alias configurations stop at a state cap in the quick tier (reported as bounded). Application contract of DESIGN §2.4. Trusts the verif_state hook, the reference codec and the reference model in rules.rs.",
+   "DESIGN.md §3 C06")
 NOT_YET = {}
 
 def main():
